@@ -290,6 +290,8 @@ def _x_of_second(fn, e) -> bool:
 
 
 def run(ctx: Ctx) -> None:
+    from ..rules import tableau as _tbx
+    _tbx.rule_xz_rowops(ctx, ["graphiq/backends/stabilizer/functions/linalg.py", "graphiq/backends/stabilizer/functions/stabilizer.py"])
     rule_eq_returns(ctx)
     rule_counter_condition(ctx)
     rule_canon_reduced(ctx)
